@@ -87,6 +87,31 @@ def run(pid, tier, replay=None):
                     chk.case(json.dumps(lab), nontrivial=any(x_[0] == "close" for x_ in lab) and any(x_[0] == "step" and x_[1] > 0 for x_ in lab))
                 finally:
                     run_.finish()
+            # start-up: a listed peer connects in, greets and is dialled back right after the node came up (played while the start-up path
+            # reads the peer list, if the networking thread is already running by then), then ordinary traffic
+            if label == "limit_3":
+                def early(run__):
+                    run__.incoming(1, 40001)
+                    k_in = [run__.key_of(p_) for p_ in run__.node.local.network_manager.connected_peers.values()]
+                    if k_in:
+                        run__.hello(k_in[0], 2412, False)
+                    run__.step()
+                    for p_ in list(run__.node.local.network_manager.connected_peers.values()):
+                        k__ = run__.key_of(p_)
+                        if k__["d"] == "OUTGOING" and not p_.hello_received:
+                            run__.hello(k__, 2412, False)
+                for variant in range(3):
+                    run_ = peer_drv.PeerRun(w, g, [(1, 2412), (2, 2412)][:1 + variant % 2], tid=len(traces) + 1, early_traffic=early)
+                    lab = ["start-up traffic", variant]
+                    try:
+                        for dt_ in (1, 10, 20, 1800):
+                            run_.step()
+                            run_.tick(dt_)
+                        run_.step()
+                        traces.append(run_.trace())
+                        chk.case(json.dumps(lab), nontrivial=True)
+                    finally:
+                        run_.finish()
             # directed histories: an address is given up on (limit exceeded), then comes back through every door -- announced by a greeted
             # peer, greeting from the same host with that listening port, announced again after a long time -- and the node keeps stepping
             if label == "limit_3":
